@@ -75,8 +75,34 @@ def register(K):
     K.contract("ml.MLAllowlist.__init__", params="self: ml.MLAllowlist", modifies=["self.allowlist"], ensures=[])
 
     def closure_env(eng, st):
+        """the environment of the safe-ML closures as activate_safe_ml_environment builds it (its postcondition is_ml_load / is_ml_loads,
+        contracts/hooks.py): the activation's also_allow, and the sibling nested functions the closure calls (their code is the nested def of
+        that name in the working tree)"""
+        import ast as _ast
+        from pyvc.state import static_ref
+        from pyvc.sorts import Int
         c = st.env["__closure__"]
-        return {"also_allow": V("val", st.read("function.cell.also_allow", c.t, Val))}
+        outer = "hook.activate_safe_ml_environment"
+        nested = {q.rsplit(".", 1)[-1]: fn for q, fn in eng.repo.qual.items() if q.startswith(outer + ".<locals>.") and q.count(".<locals>.") == 1}
+
+        def names(fn):
+            return {n.id for n in _ast.walk(fn) if isinstance(n, _ast.Name) and isinstance(n.ctx, _ast.Load)}
+        which = (getattr(eng, "cur_fn", "") or "").rsplit(".", 1)[-1]
+        holder = c.t                                  # the closure object whose cell holds the activation's also_allow
+        if which in nested and "also_allow" not in names(nested[which]):
+            for g in sorted(names(nested[which]) & set(nested)):
+                if "also_allow" in names(nested[g]):
+                    holder = Val.r(st.read(f"function.cell.{g}", c.t, Val))
+                    break
+        env = {"also_allow": V("val", st.read("function.cell.also_allow", holder, Val))}
+        for q, fn in eng.repo.qual.items():
+            if q.startswith(outer + ".<locals>.") and q.count(".<locals>.") == 1:
+                g = q.rsplit(".", 1)[-1]
+                cell = st.read(f"function.cell.{g}", c.t, Val)
+                st.assume(z3.Implies(Val.is_R(cell), st.read("function.code", Val.r(cell), Int) == static_ref("code:" + q)))
+                st.assume(Val.is_R(cell))
+                env.setdefault(g, V("val", cell))
+        return env
     K.contract("hook.activate_safe_ml_environment.<locals>.new_load", params="__closure__: function, file: val, *args: val, **kwargs: val",
                returns="val", may_raise=["Exception", "exception.UnsafeFileError"], closure_env=closure_env, ensures=[])
     K.contract("hook.activate_safe_ml_environment.<locals>.new_loads", params="__closure__: function, data: val, *args: val, **kwargs: val",
